@@ -13,7 +13,7 @@ RULE = ('one run = a generated ReverseProxyBasePlugin route table (1-3 static ro
         '--rewrite-host-header on or off; random.choice is a tape draw; observed through the kernel\'s connect log, '
         'the origin transcript (h11) and the client transcript; non-trivial = the request matches a route with '
         'several URLs or several routes, or is segmented, or has a body; distinct = distinct event-log digests')
-PROBES = ['followup_literal', 'no_match', 'one_match', 'several_match', 'multi_url_route', 'dynamic_url', 'dynamic_literal', 'rewrite_host',
+PROBES = ['https_upstream', 'followup_literal', 'no_match', 'one_match', 'several_match', 'multi_url_route', 'dynamic_url', 'dynamic_literal', 'rewrite_host',
           'explicit_port', 'url_with_path', 'name_upstream', 'body', 'chunked_body', 'segmented', 'routed_right',
           'answered_404']
 COMPONENTS = {
@@ -22,7 +22,8 @@ COMPONENTS = {
              'proxy/http/handler.py', 'proxy/core/work/threadless.py'],
     'stub': ['kernel (connect log; random.choice drawn from the tape)', 'peers', 'generated route-table plugin'],
 }
-ASSUMPTIONS = ['https upstream URLs are not exercised (they need the simulated TLS transport of C11)',
+ASSUMPTIONS = ['one https upstream URL is exercised (default port 443, real TLS towards a scripted origin whose certificate the '
+               '--ca-file trusts); certificate failures towards upstreams are C11\'s subject',
                'request paths carry no query string (whether a route regex is applied to the path or to path+query is '
                'not fixed by the documentation)',
                'when several routes match, any URL of any matching route is accepted as the target',
@@ -34,13 +35,24 @@ TIERS = {
 }
 STATE_MEASURE = 'distinct (match class, url form, rewrite, method, framing) tuples'
 
-ROUTES = [r'/get$', r'/api/.*', r'/a', r'/(x|y)/z$', r'/api/v1/users$', r'/$', r'/img/[0-9]+\.png$']
+ROUTES = [r'/get$', r'/api/.*', r'/a', r'/(x|y)/z$', r'/api/v1/users$', r'/$', r'/img/[0-9]+\.png$',
+          r'/lit/thing$', r'/dyn/.*']       # (the last two overlap with the dynamic routes)
 PATHS = ['/get', '/api/v1/users', '/api/', '/a', '/abc', '/x/z', '/y/z', '/', '/img/12.png', '/nothing', '/ge', '/API/x',
          '/get/more', '/dyn/thing', '/lit/thing', '/z/x', '/api/get', '/x/z/a']
 URLS = [(b'http://10.0.5.1', ('10.0.5.1', 80)), (b'http://10.0.5.1/', ('10.0.5.1', 80)),
         (b'http://10.0.5.2:8080/base', ('10.0.5.2', 8080)), (b'http://up1.example/a/b?fixed=1', ('10.0.5.3', 80)),
         (b'http://up2.example:81', ('10.0.5.4', 81)), (b'http://10.0.5.5:80/x/', ('10.0.5.5', 80)),
-        (b'http://10.0.5.6:8000/deep/path/here', ('10.0.5.6', 8000))]
+        (b'http://10.0.5.6:8000/deep/path/here', ('10.0.5.6', 8000)),
+        # an https upstream: default port 443, TLS towards the origin (verified against --ca-file)
+        (b'https://secure-up.example/s', ('10.0.5.7', 443))]
+_px: Dict[str, Any] = {}
+
+
+def setup_worker(job: Dict[str, Any]) -> None:
+    from ..tls import fixtures, origin_cert
+    px = fixtures(job['scratch'])
+    _px.update(px)
+    _px['secure-up'] = origin_cert(px, 'secure-up.example', 'good')
 
 
 def run_one(tape: Any, cfg: Dict[str, Any], forbid: FrozenSet[str] = frozenset()) -> Result:
@@ -59,6 +71,7 @@ def run_one(tape: Any, cfg: Dict[str, Any], forbid: FrozenSet[str] = frozenset()
         scen.sched_swarm(w, tape)
         w.dns['up1.example'] = ['10.0.5.3']
         w.dns['up2.example'] = ['10.0.5.4']
+        w.dns['secure-up.example'] = ['10.0.5.7']
         rewrite = g.feature('rewrite_host', 0.5)
         if rewrite:
             w.probe('rewrite_host')
@@ -72,6 +85,9 @@ def run_one(tape: Any, cfg: Dict[str, Any], forbid: FrozenSet[str] = frozenset()
             used.add(rx_)
             nurl = 1 + tape.weighted([4, 2, 1], 'nurl')
             urls = [URLS[tape.draw(len(URLS), 'url')][0] for _ in range(nurl)]
+            urls = [u if not u.startswith(b'https') or g.note('https_upstream') else URLS[0][0] for u in urls]
+            if any(u.startswith(b'https') for u in urls):
+                w.probe('https_upstream')
             table.append((rx_, urls))
         dyn: Dict[str, Any] = {}
         LIT = okResponse(content=b'literal-response', headers={b'X-Origin': b'literal'}, compress=False)
@@ -83,10 +99,15 @@ def run_one(tape: Any, cfg: Dict[str, Any], forbid: FrozenSet[str] = frozenset()
                 table.insert(tape.draw(len(table) + 1, 'dynpos'), r'/lit/.*')
                 dyn[r'/lit/.*'] = LIT
         plugin = make_reverse_plugin(table, None, dyn)
+        popts = scen.proxy_opts(tape, 16)
+        if any(not isinstance(r_, str) and any(u.startswith(b'https') for u in r_[1]) for r_ in table):
+            # a receive buffer smaller than a TLS record leaves plaintext inside OpenSSL where select() cannot see it: that
+            # configuration is a separate question (same decision as in C11), the knob stays at its default next to TLS
+            popts.pop('server_recvbuf_size', None)
         flags = make_flags(['--enable-reverse-proxy'] + (['--rewrite-host-header'] if rewrite else []),
                            threadless=True, local_executor=1, timeout=3600,
-                           enable_web_server=True, plugins=[plugin],
-                           **scen.proxy_opts(tape, 16))
+                           enable_web_server=True, plugins=[plugin], ca_file=_px['pub_cert'],
+                           **popts)
         h = L1(w, flags)
         # origins: one per distinct address; every response names the origin and echoes nothing else
         addrs = sorted({a for _, a in URLS} | {('10.0.5.9', 8080)})
@@ -98,7 +119,13 @@ def run_one(tape: Any, cfg: Dict[str, Any], forbid: FrozenSet[str] = frozenset()
                     r, m = gen_response(tape, g, 200, tag=('%s:%d' % a).encode(), allow_interim=False)
                     resp_by_conn.setdefault(id(peer), []).append(r)
                     return [('send', r, 'burst')]
-                return Origin(w, a[0], a[1], lambda i: [('serve', responder, 5), ('wait_eof',), ('close',)],
+                pre: List[Any] = []
+                if a[1] == 443:
+                    import ssl
+                    sctx = ssl.SSLContext(ssl.PROTOCOL_TLS_SERVER)
+                    sctx.load_cert_chain(_px['secure-up']['cert'], _px['secure-up']['key'])
+                    pre = [('tls_server', sctx), ('wait_tls',)]
+                return Origin(w, a[0], a[1], lambda i: list(pre) + [('serve', responder, 5), ('wait_eof',), ('close',)],
                               name='%s:%d' % a)
             origins[a] = mk(a)
         nconn = 1 + tape.draw(2, 'nconn')
@@ -187,19 +214,20 @@ def run_one(tape: Any, cfg: Dict[str, Any], forbid: FrozenSet[str] = frozenset()
                         break
                     w.probe('answered_404')
                     continue
-                if cn['literal'] and not cn['cands']:
-                    if rx != bytes(LIT):
-                        w.fail('literal_response_altered', sig, 'dynamic route returned a literal response, client got %r' % rx[:100])
-                        break
-                    w.probe('dynamic_literal')
-                    continue
-                # exactly one outbound connection for this request, to a candidate
                 # find the upstream connection that carries this client connection's marker header (connections may
                 # overtake one another, so order proves nothing)
                 marker = b'c%d' % k
                 found = [(a, i) for a, o in origins.items() for i, oc in enumerate(o.conns)
                          if (b'X-Conn: ' + marker + b'\r\n') in bytes(oc.rx) or (b'X-Conn:' + marker + b'\r\n') in bytes(oc.rx)
                          or re.search(rb'(?i)x-conn:[ \t]*' + marker + rb'[ \t]*\r\n', bytes(oc.rx))]
+                if cn['literal'] and (not cn['cands'] or not found):
+                    # the literal route answered (when a static route matches as well either may serve the request, but only one)
+                    if rx != bytes(LIT):
+                        w.fail('literal_response_altered', sig, 'dynamic route returned a literal response, client got %r' % rx[:100])
+                        break
+                    w.probe('dynamic_literal')
+                    continue
+                # exactly one outbound connection for this request, to a candidate
                 if not found:
                     w.fail('not_forwarded', sig, 'path %r matches %r but no upstream received the request; client got %r; connect log %r'
                            % (cn['path'], [r if isinstance(r, str) else r[0] for r in cn['matching']], rx[:80], clog[:4]))
